@@ -86,6 +86,7 @@ type ChanObj struct {
 	Buf    []Value
 	Closed bool
 	id     int
+	Timer  *timerState
 }
 
 type IterV struct {
